@@ -9,14 +9,6 @@ Definition reg_addr (id : string) : N := match lookup id registry with Some r =>
 Definition reg_bits (id : string) : N := match lookup id registry with Some r => r_bits r | None => 2 ^ 70 end.
 
 (** the serialised width (bits of the Raw() accessor ValueBytes switches on; the key: its 32
-    bytes), and the membership of an ID in the parser tables of ValueFromBytes
-    (Model/MarshalOps.v) *)
-From CSS Require Import Model.MarshalOps.
+    bytes) *)
 Definition reg_ser_bits (id : string) : N :=
   match lookup id registry with Some r => 8 * N.of_nat (r_ser r) | None => 2 ^ 70 end.
-Definition in_parser64 (id : string) : N := N.b2n (in_ids id parser64_ids).
-Definition in_parser32 (id : string) : N := N.b2n (in_ids id parser32_ids).
-Definition in_parser8 (id : string) : N := N.b2n (in_ids id parser8_ids).
-Definition n_parser64 : N := N.of_nat (List.length parser64_ids).
-Definition n_parser32 : N := N.of_nat (List.length parser32_ids).
-Definition n_parser8 : N := N.of_nat (List.length parser8_ids).
